@@ -14,7 +14,7 @@ from props.interp_common import TEMPLATES, run_scenario, check_trace
 
 TICKS = {"seq": 12, "block": 13, "nested": 18, "endblocks": 12, "watch": 14, "watch_block": 18, "alarm": 16,
          "alarm_block": 19, "macro": 24, "wait_cmd": 20, "watch_in_alarm": 16, "trailing": 13,
-         "block_in_watch": 20, "block_in_alarm": 20, "empty_openers": 16, "two_watch_blocks": 28}
+         "block_in_watch": 20, "block_in_alarm": 20, "empty_openers": 16, "two_watch_blocks": 28, "uod_in_alarm": 20, "uod_in_macro": 20}
 
 
 def harness(sym):
@@ -56,7 +56,7 @@ OBLIGATIONS = [Obligation(
              "openpectus.lang.exec.pinterpreter:PInterpreter.visit_CallMacroNode", "openpectus.lang.exec.pinterpreter:PInterpreter.visit_BlankNode",
              "openpectus.lang.exec.visitor:NodeVisitor.visit"],
     symbolic="UOD command durations (1..3 iterations each); ticks at which the Watch/Alarm condition tag switches on and off (two ints over the run length)",
-    bounds={"quick": "16 method templates (sequence, block, nested blocks, End blocks, watch, watch in block, alarm, alarm in block, macro with two calls, wait + 3 UOD commands, watch in alarm, trailing blanks, block started from a watch, block started from an alarm), <=14 ticks for condition templates",
+    bounds={"quick": "18 method templates (sequence, block, nested blocks, End blocks, watch, watch in block, alarm, alarm in block, macro with two calls, wait + 3 UOD commands, watch in alarm, trailing blanks, block started from a watch, block started from an alarm), <=14 ticks for condition templates",
             "thorough": "same templates, run length +4 ticks, full condition trajectories"},
     assumptions=["tick interval fixed at 0.1 s (time is not the subject here: C03)", "condition tag follows a single 0->1->0 step trajectory",
                  "fake hardware and instrumented UOD commands; log statements removed at import",
@@ -65,7 +65,7 @@ OBLIGATIONS = [Obligation(
 
 MANIFEST = {
     "level": "model_checking",
-    "text": "Bounded exhaustive symbolic execution (CrossHair/z3) of the real interpreter on a catalogue of 16 method templates; the solver chooses command durations and the ticks at which Watch/Alarm conditions switch, so every relative timing of main flow and interrupt flows within the bound is covered; traces are checked against a reference structure derived independently from indentation.",
+    "text": "Bounded exhaustive symbolic execution (CrossHair/z3) of the real interpreter on a catalogue of 18 method templates; the solver chooses command durations and the ticks at which Watch/Alarm conditions switch, so every relative timing of main flow and interrupt flows within the bound is covered; traces are checked against a reference structure derived independently from indentation.",
     "note": "Trusted: CrossHair/z3, the reference flow structure in props/interp_common.py; template catalogue, fixed tick interval, single step trajectory of the condition tag; other programs outside the claim.",
     "technique": "symbolic execution of the real interpreter (CrossHair + z3), bounded exhaustive over condition/duration schedules, reference-structure trace oracle, counterexample replay",
 }
